@@ -4,10 +4,10 @@
    with the library on every run).  [decl name] is the (convex, smooth, strong-convexity) declaration parsed from the source of
    the working tree on every run (generated/Src_c06_flags.v): every convexity theorem carries the declaration it justifies. *)
 From Coq Require Import String.
-From Coq Require Import List ZArith QArith Reals Bool Lra.
+From Coq Require Import List ZArith QArith Reals Bool Lra Lia Psatz.
 From LNGen Require Import Src_c06 Src_c06_flags.
 From Coquelicot Require Import Coquelicot.
-From LN Require Import C06_Defs C06_Proofs C06_Deriv C06_Transfer.
+From LN Require Import C06_Defs C06_Proofs C06_Deriv C06_Transfer C06_Convex2_Defs C06_Convex2 C06_Convex2_Transfer.
 Import ListNotations.
 Local Open Scope R_scope.
 
@@ -318,3 +318,278 @@ Proof.
   - vm_compute. reflexivity.
   - rewrite <- h_argmax. vm_compute. reflexivity.
 Qed.
+
+(* ======================================================================================================================== *)
+(* extension (C06_Convex2): class-NLL / log-sum-exp, quadratic forms, max-type functions, affine composition and sums         *)
+(* ======================================================================================================================== *)
+(* class-NLL: log-sum-exp is convex with gradient soft-max; the gradient the code computes (shift by the largest output) IS soft-max - indicator; the ideal value lse - posum satisfies the sub-gradient inequality; the value the code computes (epsilon inside the logarithm) lies in [ideal, ideal + ln(1+eps)] and satisfies the inequality up to the slack ln(1+eps) <= eps *)
+Theorem C06_loss_classnll_convex : declares "loss:classnll"%string "yes"%string "yes"%string ""%string /\
+  (forall x z, length z = length x -> x <> [] -> lse z >= lse x + Rdot (softmax x) (Rvsub z x))%R /\
+  (forall t o, length t = length o -> o <> [] -> classnll_g t o = classnll_ideal_g t o) /\
+  (forall t x z, length z = length x -> length t = length x -> x <> [] ->
+     classnll_ideal t z >= classnll_ideal t x + Rdot (classnll_g t x) (Rvsub z x))%R /\
+  (forall eps t o, 0 <= eps -> o <> [] -> classnll_ideal t o <= classnll_code eps t o <= classnll_ideal t o + ln (1 + eps))%R /\
+  (forall eps t x z, 0 <= eps -> length z = length x -> length t = length x -> x <> [] ->
+     classnll_code eps t z >= classnll_code eps t x + Rdot (classnll_g t x) (Rvsub z x) - ln (1 + eps))%R /\
+  (forall eps, 0 <= eps -> ln (1 + eps) <= eps)%R.
+Proof. exact s2_loss_classnll. Qed.
+Print Assumptions C06_loss_classnll_convex.
+
+(* the EXACT inequality is false of the code's class-NLL formula (witness at the 1e-33 level): theorem
+   C06_loss_classnll_code_exact_inequality_refuted in C06_Convex2_Refuted.v -- a separate file, built on every run by tools/checks/c06.py, so that
+   CoqInterval / Flocq stay outside the dependency cone of this file (coqchk of the thorough tier) *)
+
+(* trid: exact second-order expansion (gradient = derivative) with the remainder d'Td, 2 d'Td = d_1^2 + sum (d_{i+1}-d_i)^2 + d_n^2 >= 0 *)
+Theorem C06_fn_trid_convex : declares "fn:trid"%string "yes"%string "yes"%string ""%string /\ convex_on (trid_v Rops) (trid_g Rops) 0 /\
+  (forall x z, length z = length x ->
+     trid_v Rops z = (trid_v Rops x + Rdot (trid_g Rops x) (Rvsub z x) + trid_q (Rvsub z x))%R) /\
+  (forall d, (2 * trid_q d)%R = sos_from 0 d).
+Proof. exact s2_fn_trid. Qed.
+Print Assumptions C06_fn_trid_convex.
+
+(* rotated hyper-ellipsoid |Lx|^2: exact expansion f(z) = f(x) + g(x).(z-x) + f(z-x) *)
+Theorem C06_fn_rotated_ellipsoid_convex : declares "fn:rotated-ellipsoid"%string "yes"%string "yes"%string ""%string /\ convex_on (rotated_v Rops) (rotated_g Rops) 0 /\
+  (forall x z, length z = length x ->
+     rotated_v Rops z = (rotated_v Rops x + Rdot (rotated_g Rops x) (Rvsub z x) + rotated_v Rops (Rvsub z x))%R).
+Proof. exact s2_fn_rotated. Qed.
+Print Assumptions C06_fn_rotated_ellipsoid_convex.
+
+(* fn:quadratic x.(a + 1/2 A x): exact expansion for symmetric A; mu-strongly convex for every Rayleigh lower bound mu; the constructor's I + B B' is symmetric with Rayleigh quotient >= 1 *)
+Theorem C06_fn_quadratic_convex : declares "fn:quadratic"%string "yes"%string "yes"%string "nano::strong_convexity(m_A)"%string /\
+  (* any symmetric A: exact expansion, and mu-strong convexity for every lower bound mu of the Rayleigh quotient *)
+  (forall a A n x z, length A = n -> length a = n -> length x = n -> length z = n -> sym_form n A ->
+     quad_v Rops a A z = (quad_v Rops a A x + Rdot (quad_g Rops a A x) (Rvsub z x) + / 2 * Rdot (Rvsub z x) (Rmv A (Rvsub z x)))%R) /\
+  (forall a A n mu, length A = n -> length a = n -> sym_form n A -> rayleigh n A mu ->
+     convex_on_n n (quad_v Rops a A) (quad_g Rops a A) mu) /\
+  (* the matrix of the constructor, I + B B': symmetric, Rayleigh quotient >= 1 *)
+  (forall a B m, rows_len m B -> length a = length B ->
+     convex_on_n (length B) (quad_v Rops a (gram1 Rops B)) (quad_g Rops a (gram1 Rops B)) 1).
+Proof. exact s2_fn_quadratic. Qed.
+Print Assumptions C06_fn_quadratic_convex.
+
+(* quadratic constraint with ANY square P: gradient 1/2 (P+P')x + q is the derivative; mu-strong convexity <=> mu bounds d'Pd/d'd (the symmetric part decides) *)
+Theorem C06_cons_quadratic_convex :
+  declares "cons:quadratic"%string "nano::convex(constraint.m_P)"%string "yes"%string "nano::strong_convexity(constraint.m_P)"%string /\
+  decl "util:convex(P)"%string = Some ("(0.5*(P.matrix()+P.matrix().transpose())).eigenvalues()"%string, ""%string, ""%string) /\
+  decl "util:strong_convexity(P)"%string = Some ("(0.5*(P.matrix()+P.matrix().transpose())).eigenvalues()"%string, ""%string, ""%string) /\
+  (* ANY square P: the returned 1/2 (P + P') x + q is the derivative (exact expansion) *)
+  (forall P q r x z n, length P = n -> rows_len n P -> length q = n -> length x = n -> length z = n ->
+     cq_v Rops P q r z = (cq_v Rops P q r x + Rdot (cq_g Rops P q x) (Rvsub z x) + / 2 * Rdot (Rvsub z x) (Rmv P (Rvsub z x)))%R) /\
+  (* mu-strongly convex (mu = 0: convex) exactly when mu bounds the Rayleigh quotient d'Pd / d'd from below *)
+  (forall P q r n mu, length P = n -> rows_len n P -> length q = n ->
+     (rayleigh n P mu <-> convex_on_n n (cq_v Rops P q r) (cq_g Rops P q) mu)).
+Proof. exact s2_cons_quadratic. Qed.
+Print Assumptions C06_cons_quadratic_convex.
+
+(* constant / minimum / maximum constraints: affine, exact expansion *)
+Theorem C06_cons_coordinate_affine : declares "cons:constant"%string "yes"%string "yes"%string "0.0"%string /\
+  forall s v dm x z, length z = length x -> (dm < length x)%nat ->
+    cons_coord_v Rops s v dm z = (cons_coord_v Rops s v dm x + Rdot (cons_coord_g Rops s dm x) (Rvsub z x))%R.
+Proof. exact s2_cons_coord. Qed.
+Print Assumptions C06_cons_coordinate_affine.
+
+(* general: pointwise maximum of functions satisfying the sub-gradient inequality, with the gradient of the FIRST largest piece *)
+Theorem C06_pointwise_max_convex : forall fs gs, fs <> [] -> length gs = length fs ->
+  (forall k, (k < length fs)%nat -> convex_on (nth k fs (fun _ => 0%R)) (nth k gs (fun _ => [])) 0) ->
+  convex_on (pmax_v fs) (pmax_g fs gs) 0.
+Proof. exact s2_pointwise_max. Qed.
+Print Assumptions C06_pointwise_max_convex.
+
+(* maxq = max_i x_i^2 with gradient 2 x_idx e_idx at the first maximiser *)
+Theorem C06_fn_maxq_convex : declares "fn:maxq"%string "yes"%string "no"%string "0.0"%string /\ convex_on (maxq_v Rops) (maxq_g Rops) 0.
+Proof. exact s2_fn_maxq. Qed.
+Print Assumptions C06_fn_maxq_convex.
+
+(* maxhilb = max_i |H_i . x| (any matrix), gradient sign(H_idx . x) H_idx with sign(0) = +1; the denominators i + j + 1 as translated *)
+Theorem C06_fn_maxhilb_convex : declares "fn:maxhilb"%string "yes"%string "no"%string "0.0"%string /\ convex_on (maxhilb_v Rops) (maxhilb_g Rops) 0 /\
+  (forall A, convex_on (maxabs_v Rops A) (maxabs_g Rops A) 0) /\
+  (forall i j : Z, src_c06_maxhilb_den i j = (i + j + 1)%Z).
+Proof. exact s2_fn_maxhilb. Qed.
+Print Assumptions C06_fn_maxhilb_convex.
+
+(* kinks = sum_i |x - K_i|_1 - offset with gradient sum_i sign(x - K_i) *)
+Theorem C06_fn_kinks_convex : declares "fn:kinks"%string "yes"%string "no"%string ""%string /\
+  forall K off n, rows_len n K -> convex_on_n n (kinks_v Rops K off) (kinks_g Rops K) 0.
+Proof. exact s2_fn_kinks. Qed.
+Print Assumptions C06_fn_kinks_convex.
+
+(* maxquad = max_k x.(A_k x - b_k) for symmetric psd A_k, gradient of the first largest piece (strict `>` of the source) *)
+Theorem C06_fn_maxquad_convex : declares "fn:maxquad"%string "yes"%string "no"%string "0.0"%string /\
+  (forall n pieces, List.Forall (mq_ok n) pieces -> convex_on_n n (maxquad_v Rops pieces) (maxquad_g Rops pieces) 0) /\
+  (forall kfx fx : Z, src_c06_maxquad_test kfx fx = o_ltb Rops (IZR fx) (IZR kfx)).
+Proof. exact s2_fn_maxquad. Qed.
+Print Assumptions C06_fn_maxquad_convex.
+
+(* geometric optimisation sum_i exp(a_i + A_i . x), gradient A' exp(a + A x) *)
+Theorem C06_fn_geometric_convex : declares "fn:geometric-optimization"%string "yes"%string "yes"%string ""%string /\
+  forall a A n, rows_len n A -> length a = length A -> convex_on_n n (geo_v a A) (geo_g a A) 0.
+Proof. exact s2_fn_geometric. Qed.
+Print Assumptions C06_fn_geometric_convex.
+
+(* elastic-net objectives: risk through affine maps + alpha1 |x|_1 + alpha2/2 |x|^2 is alpha2-strongly convex (declared m_alpha2) for alpha1 >= 0 and any loss convex in its outputs *)
+Theorem C06_fn_elastic_net_convex : declares "fn:enet"%string "tloss::convex"%string "m_alpha1==0.0&&tloss::smooth"%string "m_alpha2"%string /\
+  declares "enet-loss:mse"%string "yes"%string "yes"%string ""%string /\ declares "enet-loss:mae"%string "yes"%string "no"%string ""%string /\ declares "enet-loss:hinge"%string "yes"%string "no"%string ""%string /\
+  declares "enet-loss:logistic"%string "yes"%string "yes"%string ""%string /\
+  forall D L G data a1 a2 n, loss_convex_on D L G -> (0 <= a1)%R ->
+    forall x z, length x = n -> length z = n -> List.Forall (sample_ok D n x) data ->
+    (enet_v Rops L data a1 a2 z >= enet_v Rops L data a1 a2 x + Rdot (enet_g Rops G data a1 a2 x) (Rvsub z x)
+                                  + a2 / 2 * Rdot (Rvsub z x) (Rvsub z x))%R.
+Proof. exact s2_fn_enet. Qed.
+Print Assumptions C06_fn_elastic_net_convex.
+
+(* linear model objective mean_i L(t_i, W x_i + b) + l1 mean|W| + l2/2 mean W^2: convex in (W, b) for every convex loss; the declared l2/(isize*tsize) holds for pairs that move W only; guards as in the source *)
+Theorem C06_ml_linear_convex :
+  declares "ml:linear"%string "m_loss.convex()"%string "m_loss.smooth()&&m_l1reg<=0.0"%string "m_l2reg/static_cast<scalar_t>(m_isize*m_tsize)"%string /\
+  (* convex in all parameters whenever the loss is convex in its outputs *)
+  (forall D L G data l1 l2 cw n, loss_convex_on D L G -> length cw = n -> List.Forall (fun c => 0 <= c)%R cw ->
+     forall x z, length x = n -> length z = n -> List.Forall (sample_ok D n x) data ->
+     (lin_v Rops L data l1 l2 cw z >= lin_v Rops L data l1 l2 cw x + Rdot (lin_g Rops G data l1 l2 cw x) (Rvsub z x))%R) /\
+  (* the declared coefficient l2 / (isize * tsize) is right for pairs that move the weights only *)
+  (forall D L G data l1 l2 isize tsize xw zw b, loss_convex_on D L G ->
+     length xw = (isize * tsize)%nat -> length zw = (isize * tsize)%nat -> length b = tsize ->
+     List.Forall (sample_ok D (isize * tsize + tsize) (xw ++ b)%list) data ->
+     let cw := lin_cw Rops isize tsize in let x := (xw ++ b)%list in let z := (zw ++ b)%list in
+     (lin_v Rops L data l1 l2 cw z >= lin_v Rops L data l1 l2 cw x + Rdot (lin_g Rops G data l1 l2 cw x) (Rvsub z x)
+                                     + (l2 * inv_nat Rops (isize * tsize)) / 2 * Rdot (Rvsub z x) (Rvsub z x))%R) /\
+  (* the guards of the source *)
+  (forall l : Z, src_c06_linear_l1_guard l = Rltb 0 (IZR l) /\ src_c06_linear_l2_guard l = Rltb 0 (IZR l)) /\
+  (* every coefficient-wise loss kernel with the tangent inequality, and the class-NLL, qualify *)
+  (forall kv kg, kernel_subgrad kv kg -> loss_convex_on (fun _ _ => True) (loss_v Rops kv) (loss_g kg)) /\
+  loss_convex_on (fun t o => length t = length o /\ o <> []) classnll_ideal classnll_ideal_g.
+Proof. exact s2_ml_linear. Qed.
+Print Assumptions C06_ml_linear_convex.
+
+(* KNOWN FINDING restated: with the declared coefficient the inequality fails for a pair that moves the bias only (mae, l2 = 1) *)
+Theorem C06_ml_linear_strong_convexity_in_bias_refuted :
+  let L := loss_v Rops (k_mae_v Rops) in let G := loss_g (k_mae_g Rops) in
+  let cw := lin_cw Rops 1 1 in let x := [0; 0]%R in let z := [0; 1]%R in
+  List.Forall (sample_ok (fun _ _ => True) 2 x) probe_data /\
+  (lin_v Rops L probe_data 0 1 cw z <
+   lin_v Rops L probe_data 0 1 cw x + Rdot (lin_g Rops G probe_data 0 1 cw x) (Rvsub z x)
+   + (1 * inv_nat Rops (1 * 1)) / 2 * Rdot (Rvsub z x) (Rvsub z x))%R.
+Proof. exact s2_ml_linear_bias_refuted. Qed.
+Print Assumptions C06_ml_linear_strong_convexity_in_bias_refuted.
+
+(* gboost bias / scale objectives: mean_i L(t_i, M_i x + c_i) is convex for every convex loss, gradient mean_i M_i' G *)
+Theorem C06_ml_gboost_convex : declares "ml:gboost-bias"%string "loss.convex()"%string "loss.smooth()"%string ""%string /\
+  declares "ml:gboost-scale"%string "loss.convex()"%string "loss.smooth()"%string ""%string /\
+  forall D L G data n, loss_convex_on D L G -> forall x z, length x = n -> length z = n -> List.Forall (sample_ok D n x) data ->
+    (erm_v Rops L data z >= erm_v Rops L data x + Rdot (erm_g Rops G data x) (Rvsub z x))%R.
+Proof. exact s2_ml_gboost. Qed.
+Print Assumptions C06_ml_gboost_convex.
+
+(* transfer for the extension: the extracted exact-rational instance and the real instance of the new objects agree on rational points *)
+Theorem C06_model_transfer_ext :
+  (forall A x, QR (mv Qops A x) = mv Rops (QRR A) (QR x)) /\ (forall n A y, QR (mtv Qops n A y) = mtv Rops n (QRR A) (QR y)) /\
+  (forall a A x, Q2R (quad_v Qops a A x) = quad_v Rops (QR a) (QRR A) (QR x)) /\ (forall a A x, QR (quad_g Qops a A x) = quad_g Rops (QR a) (QRR A) (QR x)) /\
+  (forall P q r x, Q2R (cq_v Qops P q r x) = cq_v Rops (QRR P) (QR q) (Q2R r) (QR x)) /\ (forall P q x, QR (cq_g Qops P q x) = cq_g Rops (QRR P) (QR q) (QR x)) /\
+  (forall a1 a2 cw x, Q2R (wreg_v Qops a1 a2 cw x) = wreg_v Rops (Q2R a1) (Q2R a2) (QR cw) (QR x)) /\
+  (forall a1 a2 cw x, QR (wreg_g Qops a1 a2 cw x) = wreg_g Rops (Q2R a1) (Q2R a2) (QR cw) (QR x)) /\
+  (forall A x, Q2R (maxabs_v Qops A x) = maxabs_v Rops (QRR A) (QR x)) /\ (forall A x, QR (maxabs_g Qops A x) = maxabs_g Rops (QRR A) (QR x)) /\
+  (forall K off x, Q2R (kinks_v Qops K off x) = kinks_v Rops (QRR K) (Q2R off) (QR x)) /\ (forall K x, QR (kinks_g Qops K x) = kinks_g Rops (QRR K) (QR x)) /\
+  (forall Lq Lr, (forall t o, Q2R (Lq t o) = Lr (QR t) (QR o)) ->
+     forall data l1 l2 cw x, Q2R (lin_v Qops Lq data l1 l2 cw x) = lin_v Rops Lr (map QRs data) (Q2R l1) (Q2R l2) (QR cw) (QR x)) /\
+  (forall Gq Gr, (forall t o, QR (Gq t o) = Gr (QR t) (QR o)) ->
+     forall data l1 l2 cw x, QR (lin_g Qops Gq data l1 l2 cw x) = lin_g Rops Gr (map QRs data) (Q2R l1) (Q2R l2) (QR cw) (QR x)) /\
+  (forall Lq Lr, (forall t o, Q2R (Lq t o) = Lr (QR t) (QR o)) ->
+     forall data a1 a2 x, Q2R (enet_v Qops Lq data a1 a2 x) = enet_v Rops Lr (map QRs data) (Q2R a1) (Q2R a2) (QR x)) /\
+  (forall Gq Gr, (forall t o, QR (Gq t o) = Gr (QR t) (QR o)) ->
+     forall data a1 a2 x, QR (enet_g Qops Gq data a1 a2 x) = enet_g Rops Gr (map QRs data) (Q2R a1) (Q2R a2) (QR x)).
+Proof. exact model_transfer_ext. Qed.
+Print Assumptions C06_model_transfer_ext.
+
+(* ---- non-vacuity of the extension theorems ---- *)
+Example C06_nonvacuous_classnll :   (* two outputs, one positive label: hypotheses satisfiable; lse [0;0] = ln 2; machine epsilon is admissible *)
+  length [1; 0] = length [0; 0] /\ length [1; -1] = length [0; 0] /\ [0; 0] <> @nil R /\ 0 <= / 4503599627370496 /\ lse [0; 0] = ln 2.
+Proof.
+  repeat split; try reflexivity; try discriminate; [lra|]. unfold lse, sumexp. cbn [fold_right]. replace (0 - 0) with 0 by ring. rewrite exp_0. f_equal. ring.
+Qed.
+
+Example C06_nonvacuous_trid : trid_q [1; 2] = 3 /\ sos_from 0 [1; 2] = 6.
+Proof. split; [unfold trid_q, dot, bias2; simpl; rops; lra | simpl; lra]. Qed.
+
+Example C06_nonvacuous_rotated : rotated_v Rops [1; 2] = 10 /\ rotated_g Rops [1; 2] = [8; 6].
+Proof. split; [unfold rotated_v; simpl; rops; lra | unfold rotated_g; simpl; rops; repeat f_equal; lra]. Qed.
+
+Example C06_nonvacuous_quadratic :   (* a 2 x 2 factor: shapes satisfiable; the 1 x 1 form [[2]] is symmetric with Rayleigh quotient 2 *)
+  rows_len 2 [[1; 0]; [1; 1]] /\ length [0; 0] = length [[1; 0]; [1; 1]] /\ sym_form 1 [[2]] /\ rayleigh 1 [[2]] 2.
+Proof.
+  split; [repeat constructor|]. split; [reflexivity|]. split.
+  - intros [|u [|? ?]] [|v [|? ?]] Hu Hv; try discriminate. unfold mv; simpl; unfold dot; simpl; rops; ring.
+  - intros [|u [|? ?]] Hu; try discriminate. unfold mv; simpl; unfold dot; simpl; rops; nra.
+Qed.
+
+Example C06_nonvacuous_cons_quadratic :   (* P = [[1,4],[0,1]] (eigenvalues 1, 1) is NOT convex: d = (1,-1) gives d'Pd = -2; the identity has Rayleigh bound 1 *)
+  length [[1; 4]; [0; 1]] = 2%nat /\ rows_len 2 [[1; 4]; [0; 1]] /\ ~ rayleigh 2 [[1; 4]; [0; 1]] 0 /\ rayleigh 2 [[1; 0]; [0; 1]] 1.
+Proof.
+  split; [reflexivity|]. split; [repeat constructor|]. split.
+  - intros H. specialize (H [1; -1] eq_refl). unfold mv in H; simpl in H; unfold dot in H; simpl in H; rops; lra.
+  - intros [|u [|v [|? ?]]] Hd; try discriminate. unfold mv; simpl; unfold dot; simpl; rops; nra.
+Qed.
+
+Example C06_nonvacuous_cons_coordinate : (0 < length [5; 7])%nat /\ cons_coord_v Rops 1 3 0 [5; 7] = 2 /\ cons_coord_v Rops (-1) 3 1 [5; 7] = -4.
+Proof. split; [simpl; lia|]. unfold cons_coord_v; simpl; rops; split; lra. Qed.
+
+Example C06_nonvacuous_pointwise_max : exists fs gs, fs <> [] /\ length gs = length fs /\
+  (forall k, (k < length fs)%nat -> convex_on (nth k fs (fun _ => 0)) (nth k gs (fun _ => [])) 0) /\ pmax_v fs [1; 2] = 5.
+Proof.
+  exists [(fun _ => 1); sphere_v Rops], [(fun _ => []); sphere_g Rops].
+  split; [discriminate|]. split; [reflexivity|]. split.
+  - intros [|[|k]] Hk; [| |simpl in Hk; lia]; cbn [nth].
+    + intros x z H. unfold dot; simpl; rops. generalize (dot_self_ge0 (Rvsub z x)). unfold dot. rops. lra.
+    + intros x z H. generalize (sphere_convex x z H) (dot_self_ge0 (Rvsub z x)). lra.
+  - unfold pmax_v, maxval, argmax, sphere_v, dot. cbn [map nth sum2 argmax_from o_ltb o_add o_mul o_zero Rops].
+    rewrite (Rltb_true 1 (1 * 1 + (2 * 2 + 0))) by lra. cbn [nth]. lra.
+Qed.
+
+Example C06_nonvacuous_maxq :   (* exact tie |x_0| = |x_1|: the FIRST maximiser's gradient *)
+  maxq_v Rops [1; -2] = 4 /\ argmax Rops (map (sq Rops) [2; -2]) = 0%nat /\ argmax Rops (map (sq Rops) [1; -2]) = 1%nat.
+Proof.
+  unfold maxq_v, argmax, sq. cbn [map argmax_from o_ltb o_mul Rops].
+  rewrite (Rltb_true (1 * 1) (-2 * -2)), (Rltb_false (2 * 2) (-2 * -2)) by lra. cbn [nth]. repeat split; lra.
+Qed.
+
+Example C06_nonvacuous_maxabs :   (* rows (1,-1) and (1,1) at x = (1,3): |-2| < |4|; at x = (-3, 0): tie 3 = 3, first row, negative sign *)
+  maxabs_v Rops [[1; -1]; [1; 1]] [1; 3] = 4 /\ maxabs_g Rops [[1; -1]; [1; 1]] [-3; 0] = [-1 * 1; -1 * -1] /\
+  hilbert_entry Rops 1 2 = / 4.
+Proof.
+  split; [|split].
+  - unfold maxabs_v, maxval, argmax, mv, dot, pabs. cbn [map sum2 argmax_from o_ltb o_mul o_add o_opp o_zero Rops]. decide_tests. cbn [nth]. decide_tests. lra.
+  - unfold maxabs_g, argmax, mv, dot, pabs, vscale. cbn [map sum2 argmax_from o_ltb o_mul o_add o_opp o_zero o_one Rops]. decide_tests. cbn [nth sum2 o_mul o_add o_zero Rops]. decide_tests. reflexivity.
+  - unfold hilbert_entry. cbn. unfold Q2R. cbn. lra.
+Qed.
+
+Example C06_nonvacuous_kinks : rows_len 1 [[1]; [2]] /\ kinks_v Rops [[1]; [2]] 1 [1] = 0 /\ kinks_g Rops [[1]; [2]] [1] = [0 + (-1 + 0)].
+Proof.
+  split; [repeat constructor|]. split.
+  - unfold kinks_v, loss_v, k_mae_v, pabs. cbn [map sum2 total fold_right o_sub o_add o_opp o_ltb o_zero Rops]. decide_tests. lra.
+  - unfold kinks_g, loss_g, k_mae_g, psgn, vadd, zeros. cbn [length repeat fold_right map2 o_sub o_add o_opp o_ltb o_zero o_one Rops]. decide_tests. reflexivity.
+Qed.
+
+Example C06_nonvacuous_maxquad : mq_ok 1 ([[1]], [0]) /\ List.Forall (mq_ok 1) [([[1]], [0]); ([[2]], [1])].
+Proof.
+  assert (K : forall a b, 0 <= a -> mq_ok 1 ([[a]], [b])).
+  { intros a b Ha. repeat split.
+    - intros [|u [|? ?]] [|v [|? ?]] Hu Hv; try discriminate. unfold mv; simpl; unfold dot; simpl; rops; ring.
+    - intros [|u [|? ?]] Hu; try discriminate. unfold mv; simpl; unfold dot; simpl; rops. generalize (sqr_ge0 u). nra. }
+  split; [apply K; lra | constructor; [apply K; lra | constructor; [apply K; lra | constructor]]].
+Qed.
+
+Example C06_nonvacuous_geometric : rows_len 1 [[1]; [-1]] /\ length [0; 0] = length [[1]; [-1]] /\ geo_v [0; 0] [[1]; [-1]] [0] = 2.
+Proof.
+  split; [repeat constructor|]. split; [reflexivity|]. unfold geo_v, mv, dot, vadd. cbn [map map2 sum2 total fold_right o_add o_mul o_zero Rops].
+  replace (0 + (1 * 0 + 0)) with 0 by ring. replace (0 + (-1 * 0 + 0)) with 0 by ring. rewrite exp_0. ring.
+Qed.
+
+Example C06_nonvacuous_erm :   (* a convex loss exists; the design matrix of the linear model for input u = (3) with 1 target: (3 | 1); a gboost-bias sample: identity *)
+  loss_convex_on (fun _ _ => True) (loss_v Rops (k_mae_v Rops)) (loss_g (k_mae_g Rops)) /\
+  design Rops 1 1 [3] = [[3; 1]] /\ sample_ok (fun _ _ => True) 2 [0; 0] ([8], design Rops 1 1 [3], [0]) /\
+  sample_ok (fun _ _ => True) 1 [0] ([8], identity Rops 1, [0]) /\ List.Forall (fun c => 0 <= c) (lin_cw Rops 1 1) /\ length (lin_cw Rops 1 1) = 2%nat.
+Proof.
+  split; [apply kernel_loss_convex, k_mae_subgrad|]. split; [reflexivity|]. split; [repeat constructor|]. split; [repeat constructor|].
+  split; [|reflexivity]. unfold lin_cw, inv_nat, zeros. cbn. unfold Q2R. cbn. repeat constructor; lra.
+Qed.
+
+Example C06_nonvacuous_transfer_ext :   (* a concrete rational instance: the quadratic constraint with the non-symmetric P = [[1,4],[0,1]] at x = (1,-1) *)
+  (cq_v Qops [[1; 4]; [0; 1]] [0; 0] 0 [1; -1] == -1)%Q /\ Q2R (cq_v Qops [[1; 4]; [0; 1]] [0; 0] 0 [1; -1])%Q = cq_v Rops (QRR [[1; 4]; [0; 1]]%Q) (QR [0; 0]%Q) (Q2R 0) (QR [1; -1]%Q).
+Proof. split; [vm_compute; reflexivity | apply h_cq_v]. Qed.
